@@ -305,3 +305,15 @@ package bchutil
 //@   assert after cat#1: len($ret) == len(payload) + 8 && (forall k :: 0 <= k && k < len(payload) ==> $ret[k] == old(payload[k])) && (forall j :: 0 <= j && j < 8 ==> $ret[len(payload) + j] == checksum[j])
 //@   loop 1 invariant len(ret) == $i && forall k :: 0 <= k && k < $i ==> ret[k] == Charset[int(combined[k])]
 //@   loop 1 invariant forall k :: 0 <= k && k < len(combined) ==> combined[k] < 32
+
+//@ func bchutil.(*Block).Bytes
+//@   requires b.msgBlock != nil
+//@   ensures old(len(b.serializedBlock)) != 0 ==> err == nil && sameobj(result0, old(b.serializedBlock)) && len(result0) == old(len(b.serializedBlock))
+//@   modifies b.serializedBlock
+//@   assert after Serialize#1: true
+
+//@ func bchutil.(*Block).TxLoc
+//@   requires b.msgBlock != nil
+//@   modifies b.serializedBlock
+//@   assert after Bytes#1: true
+//@   assert after DeserializeTxLoc#1: true
